@@ -46,6 +46,7 @@ func vNoMerge()
 func vSymbolic() bool
 func vRunSpawned() int
 func vSpawnCount() int
+func vSendCount() int
 func vObserveInt(name string, x int)
 func vObserveBool(name string, x bool)
 func vObserveBytes(name string, b []byte)
@@ -149,6 +150,7 @@ func vNoMerge()         {}
 func vSymbolic() bool   { return false }
 func vRunSpawned() int  { return 0 }
 func vSpawnCount() int  { return 0 }
+func vSendCount() int   { return 0 }
 func vObsKey(name string) string {
 	k := vObsCounts[name]
 	vObsCounts[name] = k + 1
